@@ -54,6 +54,10 @@ def programs(res, tier, wd):
     p2 = model(res, wd, "Steps(2 calls, %s, exhaustive)" % ("full grids" if tier == "thorough" else "gamma=2, eps=1/2"),
                2, 0 if tier == "thorough" else 1)
     items += [(h, i % 2 if tier == "thorough" else 0) for i, h in enumerate(p2)]
+    # the same calls with every composite function formed at the call site and not kept by the caller
+    comp = lambda h: any(c["f"] >= 6 or c["h"] >= 6 for c in h)
+    items += [(h, 2) for h in p1 if comp(h)]
+    items += [(h, 2) for i, h in enumerate([h for h in p2 if comp(h)]) if tier == "thorough" or i % 3 == 0]
     if tier == "thorough":
         p3 = model(res, wd, "Steps(3 calls, full grids, simulate)", 3, 2, simulate=4000)
         seen = set()
@@ -147,7 +151,7 @@ def judge(res, verdicts, part):
                 continue
             sig = "C08|%s|%s|%s" % (step, opt, clause)
             res.violation(sig, "%s: program [%s] (scalars as %s), call %d %s: %s; observed %s" % (
-                part, prog, "int" if t["variant"] == 0 else "float", l, step, clause, obs[:1500]),
+                part, prog, ["int", "float", "float, composite functions formed at the call site"][t["variant"]], l, step, clause, obs[:1500]),
                 dict(kind="program", h=t["h"], variant=t["variant"]))
 
 
@@ -169,7 +173,9 @@ def finish_meta(res, traces, rtraces):
     res.rule = ("programs = behaviours of spec/Steps.tla: all single calls (8 steps, every option, functions D1 / N1 / "
                 "S=D1+2N1 (indicator N2 / K=N2+2N3 for the LMO step, mirror maps D1 / M=D1+D2/2), start points x0 | "
                 "x0-x1/2 | previously returned point, gamma in {1/2,1,2}, epsilon in {0,1/2}, 0-2 search directions, "
-                "one undocumented option per optioned step), each with int and float scalars; all sequences of 2 calls "
+                "one undocumented option per optioned step), each with int and float scalars, and every call on a composite "
+                "function again with the composite formed at the call site and not kept by the caller (what the "
+                "class-level registry still holds of it after a garbage collection is what counts); all sequences of 2 calls "
                 "(quick: gamma=2, eps=1/2; thorough: full grids); thorough adds sampled sequences of 3 calls. "
                 "distinct = distinct (step, option, function(s), argument shapes, parameters) calls validated; "
                 "non-trivial = every call is (a call of a step always creates leaves and records samples). "
